@@ -507,6 +507,15 @@ def _bi_isinstance(E, args, kwargs, st, node):
                 res = res or (isinstance(v, ObjV) and v.cls == "slice")
             elif o in (bytes, bytearray):
                 res = res or (isinstance(v, SeqV) and v.kind in ("bytes", "bytearray"))
+            elif getattr(o, "__module__", "") == "collections.abc" and getattr(o, "__name__", "") in ("Iterable", "Sized", "Container", "Collection", "Sequence", "Mapping", "Set"):
+                # numbers (and None) are none of these; the containers and strings of the model are Iterable / Sized / Container
+                scalar = isinstance(v, (int, float, bool)) or v is NONE or (is_z3(v) and (z3.is_int(v) or z3.is_bv(v) or z3.is_bool(v) or z3.is_real(v)))
+                if scalar:
+                    pass
+                elif o.__name__ in ("Iterable", "Sized", "Container", "Collection") and isinstance(v, (tuple, ListV, SeqV, LitSet, str, StrV)) or type(v).__name__ in ("MapV", "SetV"):
+                    res = True
+                else:
+                    raise EngineError("isinstance of %s against %r" % (type(v).__name__, o))
             else:
                 raise EngineError("isinstance against %r" % (o,))
         elif isinstance(tt, ClassRef):
